@@ -668,7 +668,8 @@ theorem copyUntil_spec {o : List Nat} {start stop : Nat} : ∀ (k fuel : Nat) {b
 /-! ## the padded buffer and the block predicates -/
 
 /-- what the proof needs from `allocateStringBuffer`: the literal starts at `start`, the sentinel `x"` sits at
-    `S - 1`, `S` with `start < S`, at least 63 bytes follow index `S`, and the vector width is at most 63 -/
+    `S - 1`, `S` with `start < S`, at least 63 bytes follow index `S`, the vector width is at most 63, and everything from `start`
+    on is a byte -/
 structure Ctx (o : List Nat) (start S W : Nat) : Prop where
   wpos : 0 < W
   wle : W ≤ 63
@@ -676,7 +677,7 @@ structure Ctx (o : List Nat) (start S W : Nat) : Prop where
   sx : o[S - 1]? = some 0x78
   sq : o[S]? = some 0x22
   room : S + 63 ≤ o.length
-  bytes : ∀ (i c : Nat), o[i]? = some c → c < 256
+  bytes : ∀ (i c : Nat), start ≤ i → o[i]? = some c → c < 256
 
 def Plain (o : List Nat) (i : Nat) : Prop :=
   ∀ c, o[i]? = some c → isQuote c = false ∧ isBs c = false ∧ isCtl c = false
@@ -789,9 +790,9 @@ def CInv (o : List Nat) (start S : Nat) : Cfg → Prop
       o[src]? = some 0x5C
   | .fam b src dst => ∃ out, Inv o start b src dst out ∧ dec o start = prepend out (dec o src) ∧ src ≤ S
 
-def Final (o : List Nat) (start : Nat) : Outcome → Prop
+def Final (o : List Nat) (start S : Nat) : Outcome → Prop
   | .ok n next b' => ∃ out, dec o start = some (out, next) ∧ n = out.length ∧
-      Inv o start b' next (start + n + 1) (out ++ [0])
+      Inv o start b' next (start + n + 1) (out ++ [0]) ∧ next ≤ S + 1
   | .err c => dec o start = none ∧
       (c = kParseErrorUnEscaped ∨ c = kParseErrorEscapedFormat ∨ c = kParseErrorEscapedUnicode)
 
@@ -802,7 +803,7 @@ def measure (o : List Nat) : Cfg → Nat
 
 def Post (o : List Nat) (start S m : Nat) : Cfg ⊕ Outcome → Prop
   | .inl c' => CInv o start S c' ∧ measure o c' < m
-  | .inr r => Final o start r
+  | .inr r => Final o start S r
 
 /-- in the `find` phase nothing has been moved: skipping `k` bytes appends them to the output -/
 theorem Inv.skip {o b out : List Nat} {start src : Nat} (k : Nat) (h : Inv o start b src src out)
@@ -841,7 +842,7 @@ theorem stepFind_ok {o b : List Nat} {start S W src : Nat} (ctx : Ctx o start S 
     unfold wr
     rw [if_pos (by rw [hI.len]; omega)]
     refine ⟨_, rfl, ?_⟩
-    refine ⟨out ++ (o.drop src).take (mkBlock ((o.drop src).take W)).qi, ?_, ?_, ?_⟩
+    refine ⟨out ++ (o.drop src).take (mkBlock ((o.drop src).take W)).qi, ?_, ?_, ?_, by omega⟩
     · rw [run_rel (by omega) hpl hR, dec_quote hqq]; simp [prepend]
     · have := hI.dsteq
       rw [List.length_append, List.length_take, List.length_drop]; omega
@@ -882,7 +883,7 @@ theorem stepFam_ok {o b : List Nat} {start S W src dst : Nat} (ctx : Ctx o start
     unfold wr
     rw [if_pos (by rw [hI2.len]; omega)]
     refine ⟨_, rfl, ?_⟩
-    refine ⟨out ++ (o.drop src).take (mkBlock ((o.drop src).take W)).qi, ?_, ?_, ?_⟩
+    refine ⟨out ++ (o.drop src).take (mkBlock ((o.drop src).take W)).qi, ?_, ?_, ?_, by omega⟩
     · rw [run_rel (by omega) hpl hR, dec_quote hqq]; simp [prepend]
     · have := hI.dsteq
       rw [List.length_append, List.length_take, List.length_drop]; omega
@@ -924,14 +925,14 @@ theorem uEscape_none_of_hex {b : List Nat} {q : Nat} (h : hex4 b (q + 1) = none)
 /-- `handle_unicode_codepoint` against the reference `\u` escape -/
 theorem handleUnicode_spec {o b out : List Nat} {start src dst : Nat} (hI : Inv o start b src dst out)
     (hu : o[src + 1]? = some 0x75) (hlen : src + 12 ≤ o.length)
-    (hby : ∀ (i c : Nat), o[i]? = some c → c < 256) :
+    (hby : ∀ (i c : Nat), src + 1 ≤ i → o[i]? = some c → c < 256) :
     match escapeAt o (src + 1) with
     | none => handleUnicode b src dst = .ok none
     | some (xs, p') => ∃ b', handleUnicode b src dst = .ok (some (b', p', dst + xs.length)) ∧
         Inv o start b' p' (dst + xs.length) (out ++ xs) := by
   have hget : ∀ i, src + 1 ≤ i → b[i]? = o[i]? := fun i hi => hI.get (by omega)
   have hbyb : ∀ (i c : Nat), src + 1 ≤ i → b[i]? = some c → c < 256 := fun i c hi hc =>
-    hby i c (by rw [← hget i hi]; exact hc)
+    hby i c hi (by rw [← hget i hi]; exact hc)
   rw [escapeAt_u hu, ← uEscape_congr hget]
   unfold handleUnicode
   rw [show src + 2 = src + 1 + 1 by omega,
@@ -1006,7 +1007,8 @@ theorem stepCont_ok {o b : List Nat} {start S W src dst : Nat} (ctx : Ctx o star
   simp only
   by_cases hu : o[src + 1] = 0x75
   · rw [if_pos hu]
-    have hspec := handleUnicode_spec hI (by rw [hc, hu]) (by omega) ctx.bytes
+    have hspec := handleUnicode_spec hI (by rw [hc, hu]) (by omega)
+      (fun i c hi => ctx.bytes i c (by have := hI.le; have := hI.dsteq; omega))
     cases he : escapeAt o (src + 1) with
     | none =>
       rw [he] at hspec hdec
@@ -1023,7 +1025,7 @@ theorem stepCont_ok {o b : List Nat} {start S W src dst : Nat} (ctx : Ctx o star
       exact contTail_ok hI2 (by rw [hR, hdec, prepend_prepend]) (by omega) (by omega)
         (by simp only [measure]; omega)
   · rw [if_neg hu]
-    have hb256 := ctx.bytes _ _ hc
+    have hb256 := ctx.bytes _ _ (by have := hI.le; have := hI.dsteq; omega) hc
     unfold tbl
     rw [escmap_table _ hb256]
     simp only
@@ -1063,7 +1065,7 @@ theorem step_ok {o : List Nat} {start S W : Nat} (ctx : Ctx o start S W) (c : Cf
 
 theorem runFuel_ok {o : List Nat} {start S W : Nat} (ctx : Ctx o start S W) :
     ∀ (fuel : Nat) (c : Cfg), CInv o start S c → measure o c < fuel →
-      ∃ r, runFuel W start fuel c = .ok r ∧ Final o start r := by
+      ∃ r, runFuel W start fuel c = .ok r ∧ Final o start S r := by
   intro fuel
   induction fuel with
   | zero => intro c _ h; omega
@@ -1078,11 +1080,65 @@ theorem runFuel_ok {o : List Nat} {start S W : Nat} (ctx : Ctx o start S W) :
 
 /-- the main simulation theorem: no fault, termination within the fuel, and agreement with the reference -/
 theorem run_ok {o : List Nat} {start S W : Nat} (ctx : Ctx o start S W) :
-    ∃ r, run W o start = .ok r ∧ Final o start r := by
+    ∃ r, run W o start = .ok r ∧ Final o start S r := by
   have hlt := ctx.lt
   have hroom := ctx.room
   apply runFuel_ok ctx
   · exact ⟨[], ⟨rfl, by simp, rfl, Nat.le_refl _, by simp⟩, by simp, by omega⟩
   · simp only [measure]; omega
+
+/-! ## the concrete buffer of `allocateStringBuffer` and the observable consequences of `Final` -/
+
+/-- `pre ++ bs ++ x"x ++ pad` (61 bytes of padding) satisfies `Ctx` for a literal starting at `pre.length` -/
+theorem padded_ctx {W : Nat} (hW : 0 < W) (hW' : W ≤ 63) (pre bs pad : List Nat)
+    (hbs : ∀ x ∈ bs, x < 256) (hpad : ∀ x ∈ pad, x < 256) (hlen : pad.length = 61) :
+    Ctx (pre ++ bs ++ [0x78, 0x22, 0x78] ++ pad) pre.length (pre.length + bs.length + 1) W := by
+  have e : pre ++ bs ++ [0x78, 0x22, 0x78] ++ pad = (pre ++ bs) ++ ([0x78, 0x22, 0x78] ++ pad) := by simp
+  have g : ∀ j, (pre ++ bs ++ [0x78, 0x22, 0x78] ++ pad)[pre.length + bs.length + j]?
+      = ([0x78, 0x22, 0x78] ++ pad)[j]? := by
+    intro j
+    rw [e, List.getElem?_append_right (by simp)]
+    congr 1; simp
+  refine ⟨hW, hW', by omega, ?_, ?_, ?_, ?_⟩
+  · simp
+  · have := g 1; simpa using this
+  · simp [hlen]; omega
+  · intro i c hi hc
+    have e2 : pre ++ bs ++ [0x78, 0x22, 0x78] ++ pad = pre ++ (bs ++ ([0x78, 0x22, 0x78] ++ pad)) := by simp
+    rw [e2, List.getElem?_append_right hi] at hc
+    have hm := List.mem_of_getElem? hc
+    simp only [List.mem_append, List.mem_cons, List.not_mem_nil, or_false] at hm
+    rcases hm with h | (h | h | h) | h
+    · exact hbs c h
+    · omega
+    · omega
+    · omega
+    · exact hpad c h
+
+theorem final_ok_agrees {o : List Nat} {start S n next : Nat} {b' : List Nat} (hs : start ≤ o.length)
+    (h : Final o start S (.ok n next b')) :
+    ∃ out, decodeLit o start = some (out, next) ∧ (b'.drop start).take n = out ∧ b'.length = o.length ∧
+      b'[start + n]? = some 0 := by
+  obtain ⟨out, hd, hn, hI, _⟩ := h
+  refine ⟨out, by rw [decodeLit_eq_dec]; exact hd, ?_, hI.len, ?_⟩
+  all_goals
+    have hpre := hI.pre
+    have hl : (o.take start).length = start := by rw [List.length_take]; omega
+    have h1 : (b'.take (start + n + 1)).drop start = out ++ [0] := by
+      rw [hpre, List.drop_left' hl]
+    rw [List.drop_take, show start + n + 1 - start = n + 1 by omega] at h1
+  · have := congrArg (List.take n) h1
+    rw [List.take_take, Nat.min_eq_left (by omega), List.take_left' hn.symm] at this
+    exact this
+  · have := congrArg (fun l => l[n]?) h1
+    simp only [List.getElem?_take, List.getElem?_drop, hn] at this
+    rw [if_pos (by omega)] at this
+    rw [hn, this, List.getElem?_append_right (by omega)]
+    simp
+
+theorem final_err_agrees {o : List Nat} {start S c : Nat} (h : Final o start S (.err c)) :
+    decodeLit o start = none ∧
+      (c = kParseErrorUnEscaped ∨ c = kParseErrorEscapedFormat ∨ c = kParseErrorEscapedUnicode) := by
+  rw [decodeLit_eq_dec]; exact h
 
 end Sonic.Proofs.StringDec
